@@ -529,3 +529,11 @@ def c05_m(ctx):
     if n < 3:
         raise AnchorMissing('expected store.close() / store.flush() loops in close, flush and '
                             'delete of the pool, found {}'.format(n))
+
+
+@obligation('C05-n', 'T1 T5', 'a batch removed from a pool store is taken out of its count (shared '
+            'with C06-m)', floor=1,
+            necessary='the pool holds exactly the consumed batches: a removed batch that is still '
+                      'counted is served again from stale rows')
+def c05_n(ctx):
+    _C06.c06_m(ctx)
